@@ -421,13 +421,18 @@ def run(chk):
         # (a) inductive step: state (hs, winner) satisfying the invariant, one new element
         state_vars = _state_vars(gn, loop)
         if state_vars is None:
-            raise AnalysisError("C11.R3: cannot identify the (best score, winner) accumulator variables of get_node")
-        hs_var, win_var = state_vars
+            # the loop does not keep its state in a (best score, winner) pair of variables: the same inductive step in a
+            # form that does not name them - for every ordering of two nodes S and N, folding [S, N] leaves the loop in
+            # the state that folding [W] alone leaves it in, W being the argmax under (score, name).  By induction
+            # fold(xs) = fold([argmax xs]) for every xs, and what is returned for one node is that node (small cases).
+            n_cases += _fold_step_generic(prog, gn, loop, r3)
+            state_vars = None
+        hs_var, win_var = state_vars if state_vars is not None else (None, None)
         cases = []
         for rel in ("<", "=", ">"):
             for name_rel in ("<", ">"):
                 cases.append((rel, name_rel))
-        for rel, name_rel in cases:
+        for rel, name_rel in (cases if state_vars is not None else []):
             srank = {"S": 1, "N": {"<": 0, "=": 1, ">": 2}[rel]}
             nrank = {"S": 1, "N": 0 if name_rel == "<" else 2}
             dom = OrderDomain(prog, gn, srank, nrank, ["N"])
@@ -450,6 +455,9 @@ def run(chk):
             got = [(s.get(hs_var), s.get(win_var)) for s, v, t in ends] + [("exits", k) for k in ("exc", "ret", "brk") if outs.of(k)]
             r3.expect(okc, "step: score_new %s best, name_new %s winner -> (%s, %s)" % (rel, name_rel, want_hs, want_w), "RendezvousHash.get_node:step:score%sbest:name%swinner" % ({"<": "-below-", "=": "-ties-", ">": "-above-"}[rel], {"<": "-below-", ">": "-above-"}[name_rel]), "inductive step fails: with the new node's score %s the best so far and its name %s the current winner's, the loop body yields %s instead of (%s, %s)%s" % ({"<": "below", "=": "equal to", ">": "above"}[rel], {"<": "below", ">": "above"}[name_rel], got, want_hs, want_w, ": ties are not resolved to the greatest node name, so the result depends on insertion order" if rel == "=" else ""), fn=gn, node=loop)
         # initial state
+        if state_vars is None:
+            loops = []  # (the generic step covers the initial state through the one-node small case)
+    if loops and not maxform:
         dom = OrderDomain(prog, gn, {"N": 0}, {"N": 0}, ["N"])
         interp = Interp(dom, gn.node, prog)
         pre = [s for s in gn.node.body if s.lineno < loop.lineno and not (isinstance(s, ast.Expr) and isinstance(s.value, ast.Constant))]
@@ -552,20 +560,20 @@ def run(chk):
                     r5.expect(ok, "%s adds normalize_server_spec(server)" % f.qualname, "%s:unnormalised-server" % f.qualname, "%s adds `%s` without normalize_server_spec: equivalent spellings of an address give different node names and therefore different placement" % (f.qualname, node_src(a) if a is not None else None), fn=f, node=c)
     r5.floor("add_server sites in constructors", n_add, 2)
     hc = prog.cls("HashClient")
-    for mname in ("add_server", "remove_server"):
-        f = prog.method(hc, mname)
-        calls = [c for c in walk_no_nested(f.node) if isinstance(c, ast.Call) and call_name(c) == "self._make_client_key"]
-        hs = [c for c in walk_no_nested(f.node) if isinstance(c, ast.Call) and call_name(c) in ("self.hasher.add_node", "self.hasher.remove_node")]
-        ok = len(calls) == 1 and len(hs) == 1 and isinstance(hs[0].args[0], ast.Name)
-        if ok:
-            var = hs[0].args[0].id
-            asg = [n for n in walk_no_nested(f.node) if isinstance(n, ast.Assign) and isinstance(n.targets[0], ast.Name) and n.targets[0].id == var]
-            ok = len(asg) == 1 and asg[0].value is calls[0]
-        r5.expect(ok, "HashClient.%s names the node by _make_client_key(server)" % mname, "HashClient.%s:node-name" % mname, "HashClient.%s does not pass _make_client_key(server) to the hasher" % mname, fn=f, node=f.node)
+    # add_server / remove_server know a (host, port) server under the one name _make_client_key gives it: decided by
+    # interpreting them on a concrete spec (whatever helpers carry the name to the hasher and the client table)
+    from . import failhist
+
+    failhist.node_name_rows(prog, r5)
     # the AWS subclass rebuilds the rotation on re-discovery: afterwards exactly the advertised nodes are in it (C19.R2)
     from . import rules_C19, report
 
     report.include_rules(chk, r4, rules_C19, ("C19.R2",), "after re-discovery the rotation is exactly the advertised node set, whatever the failover history")
+    # placement depends on the set of servers in rotation: after failures and recoveries that set is the configured one
+    # again only if eviction and revival keep their records coupled (C13.R4)
+    from . import rules_C13
+
+    report.include_rules(chk, r4, rules_C13, ("C13.R4",), "a server that was taken out of rotation comes back (and only then leaves the dead list): placement after recovery is that of a fresh client")
     # the published rule names the hash: placement is the argmax of MurmurHash3_x86_32 scores, so a murmur3_32 that
     # differs from it (for long strings, for some bytes) moves keys away from where other clients of the cluster put them
     from . import rules_C14
@@ -825,6 +833,52 @@ def _hash_input_ok(arg, lv, keyp):
 
 def _max_form(gn):
     return False
+
+
+def _fold_step_generic(prog, gn, loop, r3):
+    """The inductive step of the argmax fold without naming the accumulators; -> number of cases evaluated."""
+    written = {n.id for n in ast.walk(loop) if isinstance(n, ast.Name) and isinstance(n.ctx, ast.Store)}
+    after = {n.id for s_ in gn.node.body if s_.lineno > loop.end_lineno for n in ast.walk(s_) if isinstance(n, ast.Name) and isinstance(n.ctx, ast.Load)}
+    # variables of the loop that are read before they are (re)assigned in an iteration, or after the loop: its state
+    killed = {n.id for n in ast.walk(loop.target) if isinstance(n, ast.Name)}
+    read_first = set()
+    for st in loop.body:
+        loads = {n.id for n in ast.walk(st) if isinstance(n, ast.Name) and isinstance(n.ctx, ast.Load)}
+        read_first |= (loads - killed)
+        if isinstance(st, ast.Assign) and all(isinstance(t, ast.Name) for t in st.targets):
+            killed |= {t.id for t in st.targets} - loads
+    carried = sorted(written & (read_first | after))
+    n = 0
+    for rel in ("<", "=", ">"):
+        for name_rel in ("<", ">"):
+            n += 1
+            srank = {0: 1, 1: {"<": 0, "=": 1, ">": 2}[rel]}
+            nrank = {0: 1, 1: 0 if name_rel == "<" else 2}
+            w = 1 if (rel == ">" or (rel == "=" and name_rel == ">")) else 0
+            finals = []
+            for order in ([0, 1], [w]):
+                dom = OrderDomain(prog, gn, srank, nrank, order)
+                outs = Interp(dom, gn.node, prog).run(Env())
+                rets = outs.of("ret")
+                if len(rets) != 1 or outs.of("exc"):
+                    finals.append(None)
+                    continue
+                s_, v, t = rets[0]
+                finals.append((tuple((k, s_.get(k, None)) for k in carried), v))
+
+            def same(a, b):
+                # two scores of the same rank are the same number
+                if isinstance(a, Score) and isinstance(b, Score):
+                    return srank.get(a.id) == srank.get(b.id)
+                if isinstance(a, TupleV) and isinstance(b, TupleV):
+                    return len(a.items) == len(b.items) and all(same(x, y) for x, y in zip(a.items, b.items))
+                if isinstance(a, tuple) and isinstance(b, tuple) and not hasattr(a, "_fields") and not hasattr(b, "_fields"):
+                    return len(a) == len(b) and all(same(x, y) for x, y in zip(a, b))
+                return a == b
+
+            ok = finals[0] is not None and finals[1] is not None and same(finals[0], finals[1])
+            r3.expect(ok, "step: fold([S, N]) = fold([argmax]) with score_N %s score_S, name_N %s name_S" % (rel, name_rel), "RendezvousHash.get_node:step:score%sbest:name%swinner" % ({"<": "-below-", "=": "-ties-", ">": "-above-"}[rel], {"<": "-below-", ">": "-above-"}[name_rel]), "inductive step fails: with the second node's score %s the first one's and its name %s, folding both leaves the loop state %s, folding the %s alone leaves %s%s" % ({"<": "below", "=": "equal to", ">": "above"}[rel], {"<": "below", ">": "above"}[name_rel], finals[0], "second" if w else "first", finals[1], ": ties are not resolved to the greatest node name, so the result depends on insertion order" if rel == "=" else ""), fn=gn, node=loop)
+    return n
 
 
 def _state_vars(gn, loop):
